@@ -56,6 +56,13 @@ func concurrent() []*bp.Prog {
 			&bp.Prog{Name: "once-" + k.name + "/sub-races-pub", Tasks: [][]bp.Op{{sub(0, o)}, {pub}, {pub}}},
 			// a second Once handler is subscribed while the first one's publish is in flight
 			&bp.Prog{Name: "once-" + k.name + "/second-once-subscribed-during-publish", Pre: []bp.Op{sub(0, o)}, Tasks: [][]bp.Op{{pub}, {sub(1, o), pub, cnt}}},
+			// a publisher is parked inside the plain handler in front of the Once handler while
+			// another publish fires and retires it and a third task subscribes something new:
+			// what the parked publisher still holds of the retired handler is not the new one
+			&bp.Prog{Name: "once-" + k.name + "/retired-and-something-subscribed-while-a-publisher-is-parked-before-it", MidPoint: true,
+				Pre: []bp.Op{sub(1, evt.SubOpts{}), sub(0, o)}, Tasks: [][]bp.Op{{pub}, {pub, sub(2, o), pub}}},
+			&bp.Prog{Name: "once-" + k.name + "/retired-and-another-type-subscribed-while-a-publisher-is-parked-before-it", MidPoint: true,
+				Pre: []bp.Op{sub(1, evt.SubOpts{}), sub(0, o)}, Tasks: [][]bp.Op{{pub}, {pub, bp.Op{K: bp.Sub, Ty: 1, Slot: 0, O: o}, bp.Op{K: bp.Pub, Ty: 1}, bp.Op{K: bp.Count, Ty: 1}}}},
 			// the Once handler sits between plain handlers, an earlier one is unsubscribed meanwhile
 			&bp.Prog{Name: "once-" + k.name + "/middle-of-list+unsub-earlier", Pre: []bp.Op{sub(1, evt.SubOpts{}), sub(0, o), sub(2, evt.SubOpts{})}, Tasks: [][]bp.Op{{pub}, {bp.Op{K: bp.Unsub, Ty: 0, Slot: 1}}, {pub}}},
 		)
